@@ -82,6 +82,17 @@ def mutants(data, rng, n, others=()):
         for ws in (b'  ', b'\t', b'   '):
             add(data + ws)
             add(data.rstrip(b'\r\n') + ws + data[len(data.rstrip(b'\r\n')):])
+        # keys of key:value / key=value tokens exchanged (an IPv4 network under ip6:, a number where a name is expected)
+        import re as _re
+        toks = _re.findall(rb'[^ ;,]+', data)
+        keyed = [(t, t.split(sepc, 1)) for t in toks for sepc in (b':', b'=') if sepc in t and not t.startswith(sepc)][:8]
+        for a in range(len(keyed)):
+            for b_ in range(len(keyed)):
+                ta, (ka, va) = keyed[a]
+                tb, (kb, vb) = keyed[b_]
+                if ka != kb:
+                    sepc = ta[len(ka):len(ka) + 1]
+                    add(data.replace(ta, kb + sepc + va, 1))
         words = data.split(b' ')
         for k in range(1, min(len(words), 7)):
             for sign in (b'+', b'-', b'~', b'?'):
